@@ -726,7 +726,7 @@ func TestCheck(t *testing.T) {
 	run.Assume("stand-in signatures (vsig); aggregate validity decided by provenance; power-table CIDs are mapped back to the tables they were computed from",
 		"direction discipline: only 'real accepts what the reference rejects', 'real rejects an honest/reference-valid sequence', and 'wrong prefix triple' are violations")
 	var mu sync.Mutex
-	nA := run.N(1500, 150000)
+	nA := run.N(6000, 150000)
 	bodyA := func(i int) {
 		rng := rand.New(rand.NewSource(run.SubSeed(int64(i))))
 		maxLen, maxN := 12, 12
@@ -838,7 +838,7 @@ func TestCheck(t *testing.T) {
 			run.Sample(map[string]any{"case": i, "certs": len(h.certs), "first_instance": h.first, "table0_members": len(h.tables[0]), "network": string(h.nn)})
 		}
 	}
-	nB := run.N(30000, 3000000)
+	nB := run.N(120000, 3000000)
 	bodyB := func(i int) {
 		rng := rand.New(rand.NewSource(run.SubSeed(int64(1_000_000 + i))))
 		a := randTable(rng, 14, 5)
